@@ -122,6 +122,7 @@ func (a *stakeActs) batchTx(t *rapid.T) {
 	}
 	if err == nil {
 		a.batchOK++
+		a.lastOps = len(msgs)
 		if redelegations > 0 && others == 0 {
 			a.lastKind = "redelegate"
 			a.valRedelOK++
